@@ -64,6 +64,12 @@ def _unit_worker(arg):
         d = res.to_json()
         d["prop"] = ccls.prop
         d["doc"] = (ccls.__doc__ or "").strip()
+        assumed = []
+        for u in getattr(ccls, "uses", None) or []:
+            u = u[0] if isinstance(u, tuple) else u
+            assumed.append({"contract": u.cname, "target": u.target, "assumed": bool(getattr(u, "abstract", False)),
+                            "statement": " ".join((u.__doc__ or "").split())[:400]})
+        d["uses"] = assumed
         if xc_n and not d.get("unsupported"):
             # CPython cross-check of the engine + the same contract read at run time on the real function
             try:
@@ -220,6 +226,7 @@ def assemble(prop, tier, seed, unit_results, fn_results, wall):
     out_of_reach = []
     vacuity = []
     canary_counts = {}
+    callee_contracts = {}
     xc = {"units_compared": 0, "runs_compared": 0, "contract_evaluations": 0, "skipped": {}, "disagreements": []}
     for u in unit_results:
         tag = f"{u['contract']}[{u['case']}]"
@@ -255,6 +262,8 @@ def assemble(prop, tier, seed, unit_results, fn_results, wall):
             continue
         functions.update(u["functions"])
         dropped.update(u["dropped"])
+        for cu in u.get("uses") or []:
+            callee_contracts.setdefault(cu["contract"], dict(cu, used_by=[]))["used_by"].append(tag)
         solver_s += u["solver_seconds"]
         canary_counts[u["canary"] or "none"] = canary_counts.get(u["canary"] or "none", 0) + 1
         if u["canary"] == "discharged":
@@ -375,4 +384,5 @@ def assemble(prop, tier, seed, unit_results, fn_results, wall):
         "undecided": undecided, "out_of_reach": out_of_reach, "machinery_errors": machinery_errors,
         "functions": functions, "dropped": sorted(dropped), "solver_s": solver_s, "fd_domains": fd_domains,
         "bounded": bnd_reports, "lines": lines, "vacuity_notes": vacuity, "crosscheck": xc, "canaries": canary_counts,
+        "callee_contracts": [dict(v, used_by=sorted(set(v["used_by"]))[:6] + (["..."] if len(set(v["used_by"])) > 6 else [])) for v in callee_contracts.values()],
     }
